@@ -3,7 +3,16 @@
 Correspondence: generated class forests + set/unset histories run on the real classes
 (impl/impl_c20.py) and on model/Settings.v inside Coq (model/SettingsTie.v: [check]
 compares the observed trace with the model's trace AND with the history-level
-specification [spec_trace], which is the property oracle)."""
+specification [spec_trace], which is the property oracle).
+
+Histories also contain RENDERS ("s": "rd") of instances whose sources are animated files
+(GIF / APNG written to a temporary directory by the driver), PIL images opened from them,
+static files and static PIL images, with or without a per-call method, whole or as one
+frame of an ImageIterator, interleaved with set / unset operations of the render method
+at every level and with operations on the global native-animation limit (values around
+the sources' data sizes).  model/SettingsRenderTie.v [rcheck] compares the method each
+render actually used and whether the size warning was issued with SettingsRender.rtrace
+(model) and SettingsRender.spec_rtrace (the documented rule on the history alone)."""
 from __future__ import annotations
 
 import json
@@ -11,7 +20,7 @@ import json
 import core
 
 LEVEL = "proof"
-EXTRA_TARGETS = ["model/SettingsTie.vo"]
+EXTRA_TARGETS = ["model/SettingsTie.vo", "model/SettingsRenderTie.vo"]
 KINDS = {
     "rm": lambda root: f"(k_render_method {2 if root == 'kitty' else 3})",
     "fs": lambda root: "k_forced_support",
@@ -28,6 +37,35 @@ VALUES = {
 }
 
 
+SRC_KINDS = ["p", "g", "n", "q", "s"]  # static PIL, animated GIF file, animated PNG file, PIL image
+#                                          opened from the GIF file, static PNG file
+_SRC = {}
+
+
+def src_info():
+    """{kind: {"animated": 0/1, "size": bytes}} of the driver's on-disk sources (deterministic)."""
+    if not _SRC:
+        _SRC.update(core.run_impl("impl_c20.py", [{"probe": 1}])[0]["src"])
+    return _SRC
+
+
+def nam_values():
+    v = list(VALUES["nam"])
+    for kd in ("g", "n"):
+        sz = src_info()[kd]["size"]
+        v += [sz - 1, sz, sz + 1]
+    return v
+
+
+def gen_render(rng, root, kinds, ni):
+    t = rng.randrange(ni)
+    nm = 2 if root == "kitty" else 3
+    m = rng.choice([None, None, None] + list(range(nm)) + [nm - 1])
+    animated = kinds[t] in ("g", "n", "q")
+    return {"s": "rd", "op": "r", "t": t, "m": m, "f": int(animated and rng.random() < 0.2),
+            "pres": rng.randrange(4)}
+
+
 def gen_case(rng, size):
     root = rng.choice(["kitty", "iterm2", "iterm2"])
     nc = rng.randint(1, 6)
@@ -42,22 +80,77 @@ def gen_case(rng, size):
             par.append(rng.randrange(c))
     ni = rng.randint(0, 3)
     icls = [rng.randrange(nc) for _ in range(ni)]
-    settings = SETTINGS[root]
-    focus = rng.choice(settings) if rng.random() < 0.6 else None
+    kinds = [rng.choice(["p", "g", "g", "g", "n", "n", "q", "s"]) for _ in range(ni)]
+    settings = SETTINGS[root] + (["rd"] if ni else [])
+    focus = rng.choice(settings + (["rd", "rd"] if ni else [])) if rng.random() < 0.6 else None
+    namv = nam_values()
     ops = []
     for _ in range(rng.randint(1, size)):
-        s = focus if focus and rng.random() < 0.8 else rng.choice(settings)
+        if focus == "rd":
+            # renders interleaved with what the method used may (render method at every level)
+            # and may NOT (the limit) depend on
+            s = rng.choice(["rd", "rd", "rm", "rm", "nam" if root == "iterm2" else "rm"])
+        else:
+            s = focus if focus and rng.random() < 0.8 else rng.choice(settings)
+        if s == "rd":
+            ops.append(gen_render(rng, root, kinds, ni))
+            continue
         kind = rng.choices(["cs", "cu", "is", "iu"], [5, 3, 2 if ni else 0, 1.5 if ni else 0])[0]
         t = rng.randrange(nc) if kind in ("cs", "cu") else rng.randrange(ni)
         o = {"s": s, "op": kind, "t": t, "pres": rng.randrange(6)}
         if kind in ("cs", "is"):
-            o["v"] = rng.choice(VALUES[s])
+            o["v"] = rng.choice(namv if s == "nam" else VALUES[s])
+            if focus == "rd" and s == "rm" and rng.random() < 0.5:
+                o["v"] = 1 if root == "kitty" else rng.choice([1, 2, 2])
         ops.append(o)
-    case = {"root": root, "par": par, "icls": icls, "ops": ops}
+    case = {"root": root, "par": par, "icls": icls, "src": kinds, "ops": ops}
     if nc > 1 and rng.random() < 0.35:
         # some subclasses get a metaclass DERIVED from their parent's (the model is unaffected)
         case["meta"] = sorted(rng.sample(range(1, nc), rng.randint(1, nc - 1)))
     return case
+
+
+def render_corpus():
+    """Boundary cases: ANIM effective at each level (instance, class, ancestor class) and as the
+    per-call override, on animated file sources, with the global limit below / at / above the
+    data size (and rejected / default values); kitty LINES / WHOLE at each level."""
+    out = []
+
+    def rd(t, m=None, f=0, pres=0):
+        return {"s": "rd", "op": "r", "t": t, "m": m, "f": f, "pres": pres}
+
+    def nam(t, v, op="cs"):
+        return {"s": "nam", "op": op, "t": t, "v": v, "pres": 0}
+
+    def rm(op, t, v=None, pres=0):
+        o = {"s": "rm", "op": op, "t": t, "pres": pres}
+        if v is not None:
+            o["v"] = v
+        return o
+
+    for kd in ("g", "n", "q"):
+        sz = src_info()[kd]["size"]
+        levels = [
+            ("ancestor", [rm("cs", 0, 2)], [rm("cu", 0)]),
+            ("class", [rm("cs", 0, 1), rm("cs", 1, 2, 1)], [rm("cu", 1, pres=1)]),
+            ("instance", [rm("cs", 2, 1), rm("is", 0, 2, 2)], [rm("iu", 0)]),
+            ("override", [rm("cs", 2, 0)], []),
+        ]
+        for name, setup, undo in levels:
+            m = 2 if name == "override" else None
+            ops = list(setup)
+            for lim in (0, sz + 1, sz, sz - 1, 1):
+                ops += [nam(lim % 3, lim), rd(0, m, 0, lim % 4), rd(1, m), rd(0, m, 1)]
+            ops += [nam(1, 0, "cu"), rd(0, m), rd(0, 0), rd(0, 1, pres=1)]
+            ops += undo + [rd(0), rd(1, pres=1)]
+            out.append({"root": "iterm2", "par": [0, 0, 1], "icls": [2, 1], "src": [kd, "s"], "ops": ops,
+                        "meta": [2] if kd == "n" else []})
+    kops = []
+    for setup in ([rm("cs", 0, 1)], [rm("cs", 1, 0), rm("cs", 2, 1)], [rm("is", 0, 0)], [rm("iu", 0), rm("cu", 2)],
+                  [rm("cu", 0)]):
+        kops += setup + [rd(0), rd(1, pres=1), rd(0, 0), rd(0, 1, pres=1), rd(0, None, 1), rd(2)]
+    out.append({"root": "kitty", "par": [0, 0, 1], "icls": [2, 0, 1], "src": ["g", "p", "n"], "ops": kops})
+    return out
 
 
 CORPUS = [
@@ -102,20 +195,40 @@ def gop_term(o):
             "is": f"GInstSet {t} {core.z(o.get('v', 0))}", "iu": f"GInstUnset {t}"}[o["op"]]
 
 
+def rop_term(o):
+    if o["s"] == "rm":
+        return f"RMeth ({op_term(o)})"
+    if o["s"] == "nam":
+        return f"RLim ({gop_term(o)})"
+    m = "None" if o.get("m") is None else f"(Some {core.z(o['m'])})"
+    return f"RRender {o['t']} {m} {'true' if o.get('f') else 'false'}"
+
+
 def zll(rows):
     return core.coq_list(rows, lambda r: core.coq_list(r, core.z))
 
 
-def evaluate(cases, tag="c20"):
+def evaluate(cases, tag="c20", only=None):
     """Run cases on impl and in Coq. Returns (per_case_status, errors, impl_results).
-    per_case_status[i] = list of (setting, code) with non-zero code, + harness-level flags."""
+    per_case_status[i] = list of (setting, code) with non-zero code, + harness-level flags.
+    [only]: restrict the Coq-side judgement to these labels (used while shrinking)."""
     impl = core.run_impl_parallel("impl_c20.py", cases)
     terms, owner = [], []
     gterms, gowner = [], []
+    rterms, rowner = [], []
     for i, (c, r) in enumerate(zip(cases, impl)):
+        if any(o["s"] == "rd" for o in c["ops"]) and (only is None or "render-method-used" in only):
+            rops = [o for o in c["ops"] if o["s"] in ("rm", "nam", "rd")]
+            rterms.append(
+                f"{{| r_n := {2 if c['root'] == 'kitty' else 3}%Z; r_par := {core.coq_list(c['par'])}; "
+                f"r_icls := {core.coq_list(c['icls'])}; "
+                f"r_anim := {core.coq_list(r['srcs'], lambda x: 'true' if x[0] else 'false')}; "
+                f"r_size := {core.coq_list(r['srcs'], lambda x: core.z(x[1]))}; "
+                f"r_ops := {core.coq_list(rops, rop_term)}; r_obs := {zll([x[:2] for x in r['renders']])} |}}")
+            rowner.append(i)
         for s in SETTINGS[c["root"]]:
             ops = [o for o in c["ops"] if o["s"] == s]
-            if not ops:
+            if not ops or (only is not None and s not in only):
                 continue
             obs = r["obs"][s]
             if s == "nam":
@@ -142,6 +255,12 @@ def evaluate(cases, tag="c20"):
         for idx, code in bad:
             i, s = gowner[idx]
             status[i].append((s, code))
+    if rterms:
+        rheader = header.replace("model.SettingsTie.", "model.SettingsTie model.SettingsRender model.SettingsRenderTie.")
+        bad, errs = core.coq_shards(tag + "r", rheader, rterms, "rcase", "rbad cases")
+        errors += errs
+        for idx, code in bad:
+            status[rowner[idx]].append(("render-method-used", code))
     for i, r in enumerate(impl):
         if r["interference"]:
             status[i].append(("interference", 2))
@@ -161,32 +280,46 @@ def fails_spec(st):
     return any(code >= 2 for _, code in st)
 
 
-def shrink(case):
-    """Greedy: drop operations (then instances / trailing classes) while the property
-    oracle still fails on the implementation."""
+def shrink(case, only=None):
+    """Delta debugging over the operations: drop chunks (halves, quarters, ... single operations)
+    while the property oracle still fails on the implementation (in the same respect)."""
     cur = case
-    for _ in range(40):
+    n = 2
+    for _ in range(30):
+        L = len(cur["ops"])
+        if L <= 1:
+            break
+        n = min(n, L)
+        size = (L + n - 1) // n
         cands = []
-        for k in range(len(cur["ops"])):
+        for k in range(0, L, size):
             c = dict(cur)
-            c["ops"] = cur["ops"][:k] + cur["ops"][k + 1:]
+            c["ops"] = cur["ops"][:k] + cur["ops"][k + size:]
             if c["ops"]:
                 cands.append(c)
-        if not cands:
-            break
-        status, errors, _ = evaluate(cands, tag="c20s")
+        status, errors, _ = evaluate(cands, tag="c20s", only=only)
         nxt = next((c for c, st in zip(cands, status) if fails_spec(st)), None)
-        if nxt is None or errors:
+        if errors:
             break
-        cur = nxt
+        if nxt is not None:
+            cur = nxt
+            n = max(n - 1, 2)
+        elif size == 1:
+            break
+        else:
+            n = min(n * 2, L)
     return cur
 
 
 def describe(case):
     def one(o):
+        if o["s"] == "rd":
+            how = "iterator-frame" if o.get("f") else "render"
+            return f"inst{o['t']}.{how}" + ("" if o.get("m") is None else "+" + "LWA"[o["m"]])
         who = ("C%d" if o["op"] in ("cs", "cu") else "inst%d") % o["t"]
         return f"{who}.{o['s']}" + (f"={o['v']}" if "v" in o else ".unset")
-    return f"root={case['root']} parents={case['par']} inst_classes={case['icls']} ops=[{', '.join(map(one, case['ops']))}]"
+    return (f"root={case['root']} parents={case['par']} inst_classes={case['icls']} "
+            f"inst_sources={case.get('src')} ops=[{', '.join(map(one, case['ops']))}]")
 
 
 def run(ctx):
@@ -195,10 +328,13 @@ def run(ctx):
         cases = [ctx.replay["replay"]["case"]]
     else:
         n = 300 if ctx.quick else 4000
-        cases = list(CORPUS) + [gen_case(rng, 12 if i % 3 else 30) for i in range(n)]
+        corpus = list(CORPUS) + render_corpus()
+        cases = corpus + [gen_case(rng, 12 if i % 3 else 30) for i in range(n)]
     status, errors, impl = evaluate(cases)
     mismatches, failures = [], []
-    hist = {"root": {}, "classes": {}, "ops_len": {}, "op_kinds": {}, "settings": {}, "rejected_ops": 0, "accepted_ops": 0}
+    ncorpus = 0 if ctx.replay else len(corpus)
+    hist = {"root": {}, "classes": {}, "ops_len": {}, "op_kinds": {}, "settings": {}, "rejected_ops": 0, "accepted_ops": 0,
+            "inst_sources": {}, "renders": {}, "render_requests": {}}
     distinct = set()
     for c, r in zip(cases, impl):
         hist["root"][c["root"]] = hist["root"].get(c["root"], 0) + 1
@@ -208,6 +344,15 @@ def run(ctx):
         for o in c["ops"]:
             hist["op_kinds"][o["op"]] = hist["op_kinds"].get(o["op"], 0) + 1
             hist["settings"][o["s"]] = hist["settings"].get(o["s"], 0) + 1
+        for kd in c.get("src", []):
+            hist["inst_sources"][kd] = hist["inst_sources"].get(kd, 0) + 1
+        rds = [o for o in c["ops"] if o["s"] == "rd"]
+        for o, row in zip(rds, r.get("renders", [])):
+            key = f"used={'LWA'[row[0]] if 0 <= row[0] <= 2 else row[0]},warned={row[1]}"
+            hist["renders"][key] = hist["renders"].get(key, 0) + 1
+            key = (f"src={c['src'][o['t']]},call={'-' if o.get('m') is None else 'LWA'[o['m']]},"
+                   f"{'frame' if o.get('f') else 'whole'}")
+            hist["render_requests"][key] = hist["render_requests"].get(key, 0) + 1
         for s, rows in r["obs"].items():
             for row in rows:
                 hist["rejected_ops" if row[0] else "accepted_ops"] += 1
@@ -219,12 +364,17 @@ def run(ctx):
         if not st:
             continue
         if fails_spec(st):
-            small = shrink(cases[i]) if len(failures) < 3 else cases[i]
-            st2, _, impl2 = evaluate([small], tag="c20r")
+            if len(failures) < 2 and not ctx.replay:
+                small = shrink(cases[i], {s for s, c in st if c >= 2})
+                st2, _, impl2 = evaluate([small], tag="c20r")
+            else:
+                small, st2, impl2 = cases[i], [st], [impl[i]]
             what = f"settings history violates the documented resolution rule ({[s for s, c in st2[0] if c >= 2]}): {describe(small)}"
             failures.append({
                 "signature": core.sig({"root": small["root"], "par": small["par"], "icls": small["icls"],
-                                       "ops": [(o["s"], o["op"], o["t"], o.get("v")) for o in small["ops"]]}),
+                                       "src": small.get("src"),
+                                       "ops": [(o["s"], o["op"], o["t"], o.get("v"), o.get("m"), o.get("f"))
+                                               for o in small["ops"]]}),
                 "what": what,
                 "replay": {"case": small, "observed": impl2[0], "status": st2[0]},
             })
@@ -236,11 +386,16 @@ def run(ctx):
         "distinct_nontrivial": len(distinct),
         "rule": "corpus + random class forests (1-6 classes: chains, stars, random trees; 0-3 instances) with 1-30 "
                 "set/unset/invalid-set operations over render method, forced support, jpeg quality, read-from-file, "
-                "native-anim limit; after every op every class's and instance's effective value is read, every "
+                "native-anim limit (values around the data sizes of the animated sources), interleaved with RENDERS of "
+                "instances sourced from animated GIF/APNG files, PIL images opened from them, static files and static "
+                "PIL images (str / format with or without a per-call method, one frame of an ImageIterator): the method "
+                "whose output format was produced (LINES / WHOLE / ANIM = the whole animated file in one transmission) "
+                "and whether the size warning was issued are compared with the model and with the documented rule; "
+                "after every op every class's and instance's effective value is read, every "
                 "instance is rendered (framing LINES vs WHOLE), at the end fresh instances, per-call overrides and "
                 "forced-support instantiation are observed.  Non-trivial: >= 2 classes, >= 3 ops, a class-level "
                 "set and some unset; distinct by full case hash.",
-        "samples": [describe(c) for c in cases[:2] + cases[len(CORPUS):len(CORPUS) + 3]],
+        "samples": [describe(c) for c in cases[:2] + cases[len(CORPUS):len(CORPUS) + 1] + cases[ncorpus:ncorpus + 3]],
         "histogram": hist,
         "mismatches": mismatches,
         "failures": failures,
@@ -248,6 +403,10 @@ def run(ctx):
         "assumptions": [
             "Python attribute resolution on single-inheritance class chains is modelled by cls_lookup (instance dict, then class chain)",
             "values are identified up to the case of a render-method name (the code applies .lower())",
+            "a source's 'animated' flag and data size are facts about the file (PIL), inputs of the model",
         ],
-        "trusted": ["impl driver reads _render_method (no public getter) and confirms it by the framing of real renders"],
+        "trusted": ["impl driver reads _render_method (no public getter) and confirms it by the framing of real renders",
+                    "decoding of a render into the method used: iterm2 LINES = one 'height=1' transmission per line, "
+                    "WHOLE = one transmission of a single-frame image, ANIM = one transmission whose payload is "
+                    "byte-for-byte the animated source file; kitty LINES/WHOLE by the number of transmissions"],
     }
